@@ -17,9 +17,11 @@ Executable model of `plugins_types/binary.c`:
      EXCEPT that the bits of the last sextet that do not belong to an octet are not looked at;
   4. `binary_base64_decode`: groups of four through `b64_dtable` (generated), the last group by its number of `=`; the surplus bits of the
      last sextet are dropped (`QQ==` and `QR==` are both the one octet 0x41);
-  5. the canonical value is the INPUT TEXT (after step 2) — not `binary_base64_encode` of the octets;
+  5. the canonical value is the INPUT TEXT (after step 2) — not `binary_base64_encode` of the octets (finding F418; with the repair,
+     `Generated.binCanonReencoded`, it is the encoding);
   6. the `length` restriction on the number of decoded octets (`lyplg_type_validate_range`, unsigned).
-* `LY_VALUE_LYB`: the bytes are the octets; neither the hints nor the `length` restriction are checked (`goto cleanup`).  No canonical
+* `LY_VALUE_LYB`: the bytes are the octets; neither the hints nor the `length` restriction are checked (`goto cleanup`; finding F420, with
+  the repair, `Generated.binLybLengthChecked`, the `length` restriction is).  No canonical
   value is stored; `lyplg_type_print_binary` generates it on first use as `binary_base64_encode` of the octets (no line breaks).
 * `lyplg_type_compare_binary`: same size and `memcmp` = 0; `lyplg_type_sort_binary`: by SIZE first, then `memcmp` (short-lex, not
   lexicographic); `lyplg_type_print_binary`: LYB = the octets, otherwise the (cached) canonical value; `lyplg_type_dup_binary` copies both.
@@ -27,8 +29,9 @@ Executable model of `plugins_types/binary.c`:
 A value is therefore a pair (octets, canonical text).  `lyd_compare_single` compares data nodes by their canonical TEXT
 (`lyd_compare_single_value`: `strcmp` of `lyd_get_value`), the plug-in's compare callback by the octets.
 
-Not modelled (undefined behaviour of the C): a NUL byte in a value that takes the newline path — `binary_base64_newlines` copies the value
-with `strndup`, which stops at the NUL, and then works on `value_len` bytes of the shorter copy.
+Not modelled (undefined behaviour of the C, finding F419): a NUL byte in a value that takes the newline path — `binary_base64_newlines` copies
+the value with `strndup`, which stops at the NUL, and then works on `value_len` bytes of the shorter copy.  With the repair
+(`Generated.binNewlinesMemcpy`) the copy has `value_len` bytes and the model is the code for every input.
 
 Core Lean only (linked into `lydrv`).
 -/
@@ -127,8 +130,9 @@ structure BVal where
   canon : Bytes
   deriving DecidableEq, Repr
 
-/-- `lyplg_type_store_binary` for the text formats (`length` = the compiled parts, `[]` = no restriction) -/
-def store (length : List (Int × Int)) (hints : Nat) (s : Bytes) : Except BErr BVal :=
+/-- `lyplg_type_store_binary` for the text formats (`length` = the compiled parts, `[]` = no restriction).  `reenc` = the canonical value
+    is `binary_base64_encode` of the octets (`Generated.binCanonReencoded`, the repair of F418) instead of the text that was read. -/
+def storeWith (reenc : Bool) (length : List (Int × Int)) (hints : Nat) (s : Bytes) : Except BErr BVal :=
   match checkHints hints "binary" with
   | none => .error .Hint
   | some _ =>
@@ -139,10 +143,17 @@ def store (length : List (Int × Int)) (hints : Nat) (s : Bytes) : Except BErr B
       | .error e => .error e
       | .ok () =>
         let d := decode t
-        if validateRange (rangeIsUnsigned "binary") length (d.length : Nat) then .ok ⟨d, t⟩ else .error .Length
+        if validateRange (rangeIsUnsigned "binary") length (d.length : Nat) then .ok ⟨d, if reenc then encode d else t⟩ else .error .Length
 
-/-- `lyplg_type_store_binary` with `LY_VALUE_LYB`: no check at all -/
-def unlyb (_length : List (Int × Int)) (b : Bytes) : Except BErr BVal := .ok ⟨b, encode b⟩
+/-- the store callback of the tree the model was generated from -/
+def store (length : List (Int × Int)) (hints : Nat) (s : Bytes) : Except BErr BVal := storeWith Generated.binCanonReencoded length hints s
+
+/-- `lyplg_type_store_binary` with `LY_VALUE_LYB`: no hints, no base64; `chk` = the `length` restriction is applied
+    (`Generated.binLybLengthChecked`, the repair of F420), otherwise nothing is checked at all -/
+def unlybWith (chk : Bool) (length : List (Int × Int)) (b : Bytes) : Except BErr BVal :=
+  if chk && !validateRange (rangeIsUnsigned "binary") length (b.length : Nat) then .error .Length else .ok ⟨b, encode b⟩
+
+def unlyb (length : List (Int × Int)) (b : Bytes) : Except BErr BVal := unlybWith Generated.binLybLengthChecked length b
 
 /-- `value->_canonical` / `lyplg_type_print_binary` for the text formats -/
 def canon (v : BVal) : Bytes := v.canon
